@@ -5,9 +5,10 @@
   Model : PyIpmi.Model.FruParse   (parseFru, mirror of pyipmi/fru.py + fields.py + utils.bcd_decode)
           PyIpmi.Model.FruDevice  (parseFruDevice, mirror of Fru.get_fru_inventory above read_fru_data)
           `Variant` flags (each PROBED on the tree under test): bcdBytesOnly, sixStrict (fixes/C15-1.diff),
-          areaLenLax, devLenLax (fixes/C15-2.diff), picmgTypeOnly (fixes/C15-3.diff);
+          areaLenLax, devLenLax (fixes/C15-2.diff), picmgTypeOnly (fixes/C15-3.diff), fieldsLax (fixes/C15-4.diff),
+          overlapLax, devOverlapLax (fixes/C15-5.diff);
           `Variant.asShipped` = all set, `Variant.intended` = none set, `Variant.afterC15_1` = pinned tree
-          after C15-1 only
+          after C15-1 only, `Variant.afterC15_3` = after C15-1..3 (the tree of the second audit)
   Gen   : PyIpmi.Gen.FruTables    (BCD_MAP, 6-bit masks/shifts, type/length masks, dispatch constants and –
                                    when the source has them – manufacturer id and record-length guards)
 
@@ -29,6 +30,15 @@
                                         ≥ 1 unit of 8 bytes and inside the data) and every record header/body
                                         satisfy their zero-sum checksums
   * `device_accept_implies_area_checksums` — the same for the info areas on the device path
+  * `accept_implies_wellformed`       — ANY byte string, any variant that validates the length byte, confines the
+                                        fields and checks the layout: accepted ⇒ `imageOk` = all checksums over the
+                                        declared spans ∧ every field and C1h marker of every info area inside its
+                                        declared length ∧ no area starts inside the span of another one
+  * `device_accept_implies_fields_and_layout` — device path: the same for every announced info area
+  * `asShipped_fields_outside_counterexample`, `asShipped_overlap_counterexample`,
+    `asShipped_device_overlap_counterexample`
+                                      — without fixes/C15-4.diff / C15-5.diff an accepted image violates `fieldsOk` /
+                                        `layoutOk` (and file and device disagree: IndexError on the device)
   altered images
   * `alteration_rejected`             — a single altered byte in the common header, an info area (except its
                                         length byte) or the multi-record area is never accepted (every variant)
@@ -36,8 +46,20 @@
                                       — the info-area length byte set to b': accepted only if b' ≥ 1, the span of
                                         8·b' bytes lies inside the image and sums to zero – the altered byte is
                                         inside a verified span; corollaries `alteration_length_zero_rejected`,
-                                        `alteration_length_beyond_rejected`; `length_byte_limit`: a witness that
-                                        no parser of this format can do better than that
+                                        `alteration_length_beyond_rejected`
+  * `alteration_rejected_length_byte` — the same at full strength (repaired reader, the image as bytes / array / file):
+                                        accepted only if b' < old (NEVER a lengthened one), the new length still holds
+                                        everything the area needs (`lengthByteNeed ≤ 8·b'`: only unused space was cut
+                                        off), the shortened span sums to zero – and the altered image satisfies
+                                        `imageOk`; corollaries `alteration_length_shortened_rejected` (a field, the C1h
+                                        marker or the checksum position outside the new length ⇒ rejected),
+                                        `alteration_length_lengthened_rejected`, `alteration_rejected_no_spare_unit`
+                                        (an area without a whole unused unit: EVERY altered length byte is rejected)
+  * `device_alteration_length_byte`   — device path (the image followed by any storage contents): accepted only if
+                                        `lengthByteNeed ≤ 8·b'` and no other area starts inside the new span (a
+                                        lengthened span reaches only into bytes that belong to no area)
+  * `length_byte_limit`               — the residual no reader can remove, exhibited in both directions: the altered
+                                        image IS the encoding of another well-formed image (followed by unused bytes)
   * `asShipped_length_zero_counterexample`, `asShipped_length_beyond_counterexample`,
     `asShipped_device_length_zero_counterexample`
                                       — the pinned parser accepts an altered covered byte (length 0: every image)
@@ -46,7 +68,7 @@
   * `tables_match_storage_definition` — generated BCD_MAP / constants equal the storage definition's (T tie); the
                                         guards of the repaired record dispatch are PRESENT (`= some …`)
   * `source_is_intended_variant`, `parse_encode_today`, `parse_encode_device_today`
-                                      — the five forms the translator reads from today's AST are the intended ones
+                                      — the eight forms the translator reads from today's AST are the intended ones
 -/
 import PyIpmi.Lemmas.FruDevice
 namespace PyIpmi.Props.C15
@@ -127,11 +149,11 @@ theorem asShipped_oem_c0_counterexample (v : Variant) (hv : v.picmgTypeOnly = tr
         parseFru v k (encodeFru img) = .ok (view img) := by
   intro h
   have := h witnessOem .bytes (by decide)
-  obtain ⟨a, b, c, d, e⟩ := v
+  obtain ⟨a, b, c, d, e, f, g, h'⟩ := v
   simp only at hv
   subst hv
   revert this
-  cases a <;> cases b <;> cases c <;> cases d <;> decide
+  cases a <;> cases b <;> cases c <;> cases d <;> cases f <;> cases g <;> cases h' <;> decide
 
 /-- … namely: the foreign OEM record comes back as a MicroTCA power module capability record with a
 "maximum current output" of 820.8 A that nobody encoded (`witnessOem`), and the PICMG record id and
@@ -181,6 +203,84 @@ theorem device_accept_implies_area_checksums (v : Variant) (hv : v.devLenLax = f
     8 * store.getD k 0 + 8 * store.getD (8 * store.getD k 0 + 1) 0 ≤ store.length ∧
     sum8 ((store.drop (8 * store.getD k 0)).take (8 * store.getD (8 * store.getD k 0 + 1) 0)) = 0 :=
   device_accept_area_span v hv store fv k hk hoff hp
+
+/-- Whatever the bytes, whichever input kind, for every variant that validates the info-area length
+byte (fixes/C15-2.diff), decodes the fields from the area only (fixes/C15-4.diff) and checks the layout
+(fixes/C15-5.diff): an accepted image satisfies EVERY check a reader of this format can make –
+`imageOk` (Spec/FruFormat.lean): all zero-sum checksums over the spans the bytes themselves declare; in every
+info area the predefined fields, the custom fields and the C1h marker inside the declared length, in
+front of the checksum byte; no area starting inside the span of another one. -/
+theorem accept_implies_wellformed (v : Variant) (hv1 : v.areaLenLax = false) (hv2 : v.fieldsLax = false)
+    (hv3 : v.overlapLax = false) (k : InputKind) (bs : List Nat) (fv : FruView)
+    (h : parseFru v k bs = .ok fv) :
+    checksumsOk bs = true ∧ fieldsOk bs = true ∧ layoutOk bs = true :=
+  ⟨accept_checksums v hv1 k bs fv h, accept_fields v hv1 hv2 k bs fv h, accept_layout v hv3 k bs fv h⟩
+
+/-- Device path (`Ipmi.get_fru_inventory()`), whatever the device stores: for every info area the
+header announces (byte `k`: 2 chassis, 3 board, 4 product) the fields and the C1h marker lie inside the
+declared length `8·L` (`L` = the area's length byte), and no other area the header announces starts
+inside `[start, start + 8·L)`. -/
+theorem device_accept_implies_fields_and_layout (v : Variant) (hv1 : v.devLenLax = false)
+    (hv2 : v.fieldsLax = false) (hv3 : v.devOverlapLax = false)
+    (store : List Nat) (fv : FruView) (k : Nat) (hk : k = 2 ∨ k = 3 ∨ k = 4)
+    (hoff : store.getD k 0 ≠ 0) (hp : parseFruDevice v store = .ok fv) :
+    fieldsInside k (areaAt store k) = true ∧
+    ∀ j ∈ [1, 2, 3, 4, 5], j ≠ k → startOf store j ≠ 0 → startOf store k ≤ startOf store j →
+      startOf store k + 8 * store.getD (8 * store.getD k 0 + 1) 0 ≤ startOf store j :=
+  device_accept_area_ok v hv1 hv2 hv3 store fv k hk hoff hp
+
+/-- board area of 16 bytes: manufacturer "AB", manufacturing date 2020-01-01 03:42 (chosen so that the
+first 8 bytes, with the length byte set to 1, sum to zero) – the image of the second audit's finding 1 -/
+def witnessFields : FruImage :=
+  ⟨none, none, some ⟨0, 0xC09D9E, .text8 [0x41, 0x42], .text8 [], .text8 [], .text8 [], .text8 [], [], 0⟩, none, []⟩
+
+/-- Reading the fields from everything behind the area offset (fixes/C15-4.diff not applied): the board
+length byte of `witnessFields` altered from 2 to 1 is accepted from bytes / array / file – the
+manufacturer's second character, four fields and the C1h marker are taken from OUTSIDE the span whose
+checksum was verified (`fieldsOk` fails) – while the device path, which reads exactly the declared 8 bytes,
+ends in a bare IndexError: file and device disagree. -/
+theorem asShipped_fields_outside_counterexample (v : Variant) (hv : v.fieldsLax = true) :
+    WellFormed witnessFields ∧ isAreaLengthByte witnessFields 9 = true ∧
+    (encodeFru witnessFields)[9]? = some 2 ∧
+    (parseFru v .array ((encodeFru witnessFields).set 9 1)).isOk = true ∧
+    checksumsOk ((encodeFru witnessFields).set 9 1) = true ∧
+    fieldsOk ((encodeFru witnessFields).set 9 1) = false ∧
+    parseFruDevice v ((encodeFru witnessFields).set 9 1 ++ List.replicate 8 0xFF) = .pyError "IndexError" := by
+  obtain ⟨a, b, c, d, e, f, g, h'⟩ := v
+  simp only at hv
+  subst hv
+  cases a <;> cases b <;> cases c <;> cases d <;> cases e <;> cases g <;> cases h' <;> decide +kernel
+
+/-- board area of 16 bytes followed by a product area of 24 bytes whose first 8 bytes sum to FFh – the
+image of the second audit's finding 2 -/
+def witnessOverlap : FruImage :=
+  ⟨none, none, some ⟨0, 0xC09CC0, .text8 [0x41, 0x42], .text8 [], .text8 [], .text8 [], .text8 [], [], 0⟩,
+   some ⟨0, .text8 [0x41, 0x43, 0x4D, 0x66], .text8 [0x58, 0x31], .text8 [], .text8 [], .text8 [], .text8 [],
+         .text8 [], [], 0⟩, []⟩
+
+/-- Without the layout check (fixes/C15-5.diff not applied): the board length byte of `witnessOverlap`
+altered from 2 to 3 is accepted – all checksums hold, all fields lie inside their areas, but the board
+area now claims bytes 8..31 while the product area starts at 24 (`layoutOk` fails). -/
+theorem asShipped_overlap_counterexample (v : Variant) (hv : v.overlapLax = true) :
+    WellFormed witnessOverlap ∧ isAreaLengthByte witnessOverlap 9 = true ∧
+    (encodeFru witnessOverlap)[9]? = some 2 ∧
+    (parseFru v .bytes ((encodeFru witnessOverlap).set 9 3)).isOk = true ∧
+    checksumsOk ((encodeFru witnessOverlap).set 9 3) = true ∧
+    fieldsOk ((encodeFru witnessOverlap).set 9 3) = true ∧
+    layoutOk ((encodeFru witnessOverlap).set 9 3) = false := by
+  obtain ⟨a, b, c, d, e, f, g, h'⟩ := v
+  simp only at hv
+  subst hv
+  cases a <;> cases b <;> cases c <;> cases d <;> cases e <;> cases f <;> cases h' <;> decide +kernel
+
+/-- … and the same through the device path (`Fru.get_fru_inventory` without the layout check). -/
+theorem asShipped_device_overlap_counterexample (v : Variant) (hv : v.devOverlapLax = true) :
+    (parseFruDevice v ((encodeFru witnessOverlap).set 9 3 ++ List.replicate 16 0xFF)).isOk = true ∧
+    layoutOk ((encodeFru witnessOverlap).set 9 3 ++ List.replicate 16 0xFF) = false := by
+  obtain ⟨a, b, c, d, e, f, g, h'⟩ := v
+  simp only at hv
+  subst hv
+  cases a <;> cases b <;> cases c <;> cases d <;> cases e <;> cases f <;> cases g <;> decide +kernel
 
 /-! ### altered images are rejected -/
 
@@ -238,6 +338,81 @@ theorem alteration_length_beyond_rejected (img : FruImage) (i old b' : Nat)
   have := (alteration_rejected_length_byte_partial img i old b' hold hlb v hv k fv hp).2.1
   omega
 
+/-- The info-area length byte at FULL strength, for the repaired reader (length byte validated, fields
+confined, layout checked) given exactly the image – as bytes, array or file.  Position `i` set to ANY
+value `b'`: the result is accepted only if
+  * `b' ≤ old` – a LENGTHENED length is never accepted (the longer span would run over the start of the area
+    that follows, or behind the end of the image);
+  * `lengthByteNeed img i ≤ 8·b'` – the new length still holds everything the area needs: version, length,
+    fixed bytes, every predefined and custom field, the C1h marker and the checksum position; a SHORTENED
+    length is rejected as soon as one of them would lie outside (only whole units of unused space can go);
+  * `b' ≥ 1`, and the `8·b'` bytes from the area offset sum to zero;
+and then the altered image satisfies every check of the format (`imageOk`).  What remains is
+`length_byte_limit`. -/
+theorem alteration_rejected_length_byte (img : FruImage) (hwf : WellFormed img) (i old b' : Nat)
+    (hold : (encodeFru img)[i]? = some old) (hlb : isAreaLengthByte img i = true)
+    (v : Variant) (hv1 : v.areaLenLax = false) (hv2 : v.fieldsLax = false) (hv3 : v.overlapLax = false)
+    (k : InputKind) (fv : FruView)
+    (hp : parseFru v k ((encodeFru img).set i b') = .ok fv) :
+    1 ≤ b' ∧ b' ≤ old ∧ lengthByteNeed img i ≤ 8 * b' ∧
+    sum8 ((((encodeFru img).set i b').drop (i - 1)).take (8 * b')) = 0 ∧
+    imageOk ((encodeFru img).set i b') = true := by
+  obtain ⟨hs, hf, hl⟩ := accept_implies_wellformed v hv1 hv2 hv3 k _ fv hp
+  obtain ⟨h1, _, h3⟩ := alter_length_byte img i old b' hold hlb v hv1 k fv hp
+  refine ⟨h1, alter_length_not_longer img hwf i old b' hold hlb hs hl, ?_, h3, ?_⟩
+  · have := alter_length_need img hwf i b' hlb [] (by simpa using hf)
+    exact this
+  · simp [imageOk, hs, hf, hl]
+
+/-- A shortened length that cuts into what the area holds – a field, the C1h marker or the position of
+the checksum would lie outside the new length – is rejected. -/
+theorem alteration_length_shortened_rejected (img : FruImage) (hwf : WellFormed img) (i old b' : Nat)
+    (hold : (encodeFru img)[i]? = some old) (hlb : isAreaLengthByte img i = true)
+    (hcut : 8 * b' < lengthByteNeed img i)
+    (v : Variant) (hv1 : v.areaLenLax = false) (hv2 : v.fieldsLax = false) (hv3 : v.overlapLax = false)
+    (k : InputKind) (fv : FruView) :
+    parseFru v k ((encodeFru img).set i b') ≠ .ok fv := by
+  intro hp
+  have := (alteration_rejected_length_byte img hwf i old b' hold hlb v hv1 hv2 hv3 k fv hp).2.2.1
+  omega
+
+/-- A lengthened length is rejected. -/
+theorem alteration_length_lengthened_rejected (img : FruImage) (hwf : WellFormed img) (i old b' : Nat)
+    (hold : (encodeFru img)[i]? = some old) (hlb : isAreaLengthByte img i = true) (hlong : old < b')
+    (v : Variant) (hv1 : v.areaLenLax = false) (hv2 : v.fieldsLax = false) (hv3 : v.overlapLax = false)
+    (k : InputKind) (fv : FruView) :
+    parseFru v k ((encodeFru img).set i b') ≠ .ok fv := by
+  intro hp
+  have := (alteration_rejected_length_byte img hwf i old b' hold hlb v hv1 hv2 hv3 k fv hp).2.1
+  omega
+
+/-- An info area that has no whole unit of 8 unused bytes (every encoder that pads minimally produces
+such areas): EVERY alteration of its length byte is rejected – together with `alteration_rejected` the
+property's sentence holds literally for such images. -/
+theorem alteration_rejected_no_spare_unit (img : FruImage) (hwf : WellFormed img) (i old b' : Nat)
+    (hold : (encodeFru img)[i]? = some old) (hlb : isAreaLengthByte img i = true) (hne : b' ≠ old)
+    (hmin : 8 * old < lengthByteNeed img i + 8)
+    (v : Variant) (hv1 : v.areaLenLax = false) (hv2 : v.fieldsLax = false) (hv3 : v.overlapLax = false)
+    (k : InputKind) (fv : FruView) :
+    parseFru v k ((encodeFru img).set i b') ≠ .ok fv := by
+  intro hp
+  obtain ⟨_, h2, h3, _⟩ := alteration_rejected_length_byte img hwf i old b' hold hlb v hv1 hv2 hv3 k fv hp
+  omega
+
+/-- Device path: the image followed by ANY storage contents, its info-area length byte set to `b'`.
+`Ipmi.get_fru_inventory()` of the repaired reader accepts only if the new length holds everything the
+area needs and no other area the header announces starts inside the new span `[i-1, i-1+8·b')` – a
+lengthened span reaches only into bytes that belong to no area. -/
+theorem device_alteration_length_byte (img : FruImage) (hwf : WellFormed img) (i b' : Nat)
+    (hlb : isAreaLengthByte img i = true) (tail : List Nat)
+    (v : Variant) (hv1 : v.devLenLax = false) (hv2 : v.fieldsLax = false) (hv3 : v.devOverlapLax = false)
+    (fv : FruView) (hp : parseFruDevice v ((encodeFru img).set i b' ++ tail) = .ok fv) :
+    lengthByteNeed img i ≤ 8 * b' ∧
+    ∀ j ∈ [1, 2, 3, 4, 5], 8 * img.header.getD j 0 = i - 1 ∨ 8 * img.header.getD j 0 = 0 ∨
+      8 * img.header.getD j 0 < i - 1 ∨ i - 1 + 8 * b' ≤ 8 * img.header.getD j 0 :=
+  ⟨alter_length_need img hwf i b' hlb tail (device_accept_fields v hv1 hv2 hv3 _ fv hp),
+   alter_length_free img hwf i b' hlb tail (device_accept_spans_free v hv1 hv2 hv3 _ fv hp)⟩
+
 /-- The same for ANY byte string (not only encoded images): header byte `k` announces an area
 inside the data – acceptance implies length ≥ 1, span inside the data, zero sum over the span. -/
 theorem accept_implies_area_span (v : Variant) (hv : v.areaLenLax = false) (kd : InputKind) (bs : List Nat)
@@ -260,10 +435,10 @@ theorem asShipped_length_zero_counterexample (v : Variant) (hv : v.areaLenLax = 
     WellFormed witnessLen ∧ covered witnessLen 9 = true ∧ (encodeFru witnessLen)[9]? = some 1 ∧
     (parseFru v .bytes ((encodeFru witnessLen).set 9 0)).isOk = true ∧
     checksumsOk ((encodeFru witnessLen).set 9 0) = false := by
-  obtain ⟨a, b, c, d, e⟩ := v
+  obtain ⟨a, b, c, d, e, f, g, h'⟩ := v
   simp only at hv
   subst hv
-  cases a <;> cases b <;> cases d <;> cases e <;> decide +kernel
+  cases a <;> cases b <;> cases d <;> cases e <;> cases f <;> cases g <;> cases h' <;> decide +kernel
 
 /-- … and a length that reaches behind the end of the image (FCh = 2016 bytes) is accepted when
 the truncated remainder happens to sum to zero (one value of the byte does that for almost every
@@ -272,10 +447,10 @@ theorem asShipped_length_beyond_counterexample (v : Variant) (hv : v.areaLenLax 
     (encodeFru witnessLen).length = 22 ∧
     (parseFru v .bytes ((encodeFru witnessLen).set 9 0xFC)).isOk = true ∧
     checksumsOk ((encodeFru witnessLen).set 9 0xFC) = false := by
-  obtain ⟨a, b, c, d, e⟩ := v
+  obtain ⟨a, b, c, d, e, f, g, h'⟩ := v
   simp only at hv
   subst hv
-  cases a <;> cases b <;> cases d <;> cases e <;> decide +kernel
+  cases a <;> cases b <;> cases d <;> cases e <;> cases f <;> cases g <;> cases h' <;> decide +kernel
 
 /-- Device path without the validation in `_read_fru_area`: the altered image (followed by FFh up
 to the device size) is accepted and the chassis area comes back as an object without attributes
@@ -283,10 +458,10 @@ to the device size) is accepted and the chassis area comes back as an object wit
 theorem asShipped_device_length_zero_counterexample (v : Variant) (hv : v.devLenLax = true) :
     parseFruDevice v ((encodeFru witnessLen).set 9 0 ++ List.replicate 10 0xFF) =
       .ok ⟨none, .empty, .absent, .absent, .parsed [.unknown 1 2 true 1 [5]]⟩ := by
-  obtain ⟨a, b, c, d, e⟩ := v
+  obtain ⟨a, b, c, d, e, f, g, h'⟩ := v
   simp only at hv
   subst hv
-  cases a <;> cases b <;> cases c <;> cases e <;> decide +kernel
+  cases a <;> cases b <;> cases c <;> cases e <;> cases f <;> cases g <;> cases h' <;> decide +kernel
 
 /-- `limitImage`: chassis area with 8 bytes of unused space (16 bytes); `limitImage'`: the same
 content without the unused space (8 bytes). -/
@@ -295,17 +470,31 @@ def limitImage : FruImage :=
 def limitImage' : FruImage :=
   ⟨none, some ⟨0xBD, .text8 [], .text8 [], [], 0⟩, none, none, []⟩
 
-/-- No parser of this format can reject every altered length byte: altering the chassis length
-byte of `limitImage` from 2 to 1 yields exactly the well-formed image `limitImage'` followed by 8
-unused bytes of the device – every checksum the format defines holds, and a parser that accepts
-well-formed images has to accept it (the model does, reporting `limitImage'`). -/
+/-- The residual NO reader of this format can remove, in both directions.
+(1) SHORTENED: the chassis length byte of `limitImage` altered from 2 to 1 yields exactly the encoding of
+the well-formed image `limitImage'` followed by 8 unused bytes – only unused space was cut off.
+(2) LENGTHENED into bytes of no area: `limitImage'` stored in front of the unused bytes `00 00 00 00 00 00
+00 FF` (the rest of a device or file), its chassis length byte altered from 1 to 2, yields exactly the
+encoding of the well-formed image `limitImage`.
+Either way every check the format allows holds (`imageOk`), and a reader that accepts well-formed images
+has to accept the altered bytes (the model does, reporting the other image).  An 8-bit checksum cannot
+protect the byte that defines its own extent. -/
 theorem length_byte_limit :
     WellFormed limitImage ∧ WellFormed limitImage' ∧
     isAreaLengthByte limitImage 9 = true ∧ (encodeFru limitImage)[9]? = some 2 ∧
+    isAreaLengthByte limitImage' 9 = true ∧ (encodeFru limitImage')[9]? = some 1 ∧
+    -- (1) shortened
     (encodeFru limitImage).set 9 1 = encodeFru limitImage' ++ [0, 0, 0, 0, 0, 0, 0, 0xFF] ∧
-    checksumsOk ((encodeFru limitImage).set 9 1) = true ∧
+    lengthByteNeed limitImage 9 ≤ 8 * 1 ∧
+    imageOk ((encodeFru limitImage).set 9 1) = true ∧
     parseFru .intended .bytes ((encodeFru limitImage).set 9 1) = .ok (view limitImage') ∧
-    parseFruDevice .intended ((encodeFru limitImage).set 9 1) = .ok { view limitImage' with header := none } := by
+    parseFruDevice .intended ((encodeFru limitImage).set 9 1) = .ok { view limitImage' with header := none } ∧
+    -- (2) lengthened into bytes that belong to no area
+    (encodeFru limitImage' ++ [0, 0, 0, 0, 0, 0, 0, 0xFF]).set 9 2 = encodeFru limitImage ∧
+    imageOk ((encodeFru limitImage' ++ [0, 0, 0, 0, 0, 0, 0, 0xFF]).set 9 2) = true ∧
+    parseFru .intended .bytes ((encodeFru limitImage' ++ [0, 0, 0, 0, 0, 0, 0, 0xFF]).set 9 2) = .ok (view limitImage) ∧
+    parseFruDevice .intended ((encodeFru limitImage' ++ [0, 0, 0, 0, 0, 0, 0, 0xFF]).set 9 2) =
+      .ok { view limitImage with header := none } := by
   decide +kernel
 
 /-! ### the encoder produces bytes; 6-bit text -/
@@ -342,15 +531,16 @@ theorem tables_match_storage_definition :
 `parse_encode*`, `accept_implies_checksums`' strongest form and `alteration_rejected*` are stated for
 `Variant.intended`; the counter-example theorems for the frozen `Variant.asShipped`.  The translator
 (harness/translate/fru.py) reads from the AST of TODAY's fields.py / fru.py which of the two known forms each of
-the five repaired places has (it fails closed on any third form) and the harness additionally probes each of
+the eight repaired places has (it fails closed on any third form) and the harness additionally probes each of
 them on the running code.  `source_is_intended_variant` equates what was read with `Variant.intended`: a
-regression of any of the five stops the build (and the run then produces the failing image through the
+regression of any of the eight stops the build (and the run then produces the failing image through the
 probe-driven as-shipped streams: BCD+ in an array, a partial 6-bit group, area length 0 / beyond, a foreign C0h
-record). -/
+record, a steered shortened / lengthened area length). -/
 
 /-- the variant of the parser model that mirrors today's source, as read from its AST -/
 def sourceVariant : Variant :=
-  ⟨FruTables.bcdBytesOnly, FruTables.sixStrict, FruTables.areaLenLax, FruTables.devLenLax, FruTables.picmgTypeOnly⟩
+  ⟨FruTables.bcdBytesOnly, FruTables.sixStrict, FruTables.areaLenLax, FruTables.devLenLax, FruTables.picmgTypeOnly,
+   FruTables.fieldsLax, FruTables.overlapLax, FruTables.devOverlapLax⟩
 
 theorem source_is_intended_variant : sourceVariant = Variant.intended := by decide
 
@@ -387,6 +577,17 @@ example : isAreaLengthByte demo 17 = true ∧
     parseFru .intended .bytes ((encodeFru demo).set 17 0xFF) = .decodingError ∧
     parseFruDevice .intended ((encodeFru demo).set 17 0) = .decodingError := by decide +kernel
 example : checksumsOk (encodeFru demo) = true := by decide +kernel
+example : imageOk (encodeFru demo) = true := by decide +kernel
+-- the hypotheses of `alteration_rejected_length_byte` / `_no_spare_unit` are satisfiable: byte 17 is the chassis
+-- length byte (5 units, one of them unused: need 28 bytes), byte 57 the board's (5 units, none unused: need 34)
+example : isAreaLengthByte demo 17 = true ∧ (encodeFru demo)[17]? = some 5 ∧ lengthByteNeed demo 17 = 28 ∧
+    isAreaLengthByte demo 57 = true ∧ (encodeFru demo)[57]? = some 5 ∧ lengthByteNeed demo 57 = 34 := by decide +kernel
+-- the repaired reader rejects both audit witnesses on both paths with DecodingError
+example : parseFru .intended .array ((encodeFru witnessFields).set 9 1) = .decodingError ∧
+    parseFruDevice .intended ((encodeFru witnessFields).set 9 1 ++ List.replicate 8 0xFF) = .decodingError ∧
+    parseFru .intended .bytes ((encodeFru witnessOverlap).set 9 3) = .decodingError ∧
+    parseFruDevice .intended ((encodeFru witnessOverlap).set 9 3 ++ List.replicate 16 0xFF) = .decodingError := by
+  decide +kernel
 example : demo.okFor .asShipped .array = false := by decide
 -- byte 20 lies in the chassis area (offset 16), is not its length byte, and altering it is fatal
 example : covered demo 20 = true ∧ isAreaLengthByte demo 20 = false ∧
